@@ -904,6 +904,8 @@ fn c03<S: Lc>(ctx: &mut Ctx, id: &str, rng: &mut Rng, spec: &Spec) {
     d5_forgery::<S>(ctx, id, rng, spec, run);
     // (i'') a point with the wrong number of coordinates (D23)
     wrong_point_length_forgery::<S>(ctx, id, rng, spec, run);
+    // (i-4) value and well-formedness vector moved in opposite directions
+    merged_equations_forgery::<S>(ctx, id, rng, spec, run);
     // (ii) the stretched-vector forgery of D6 (Reed–Solomon encoders)
     if S::NAME != Bd::NAME {
         d6_forgery::<S>(ctx, id, rng, spec, run);
@@ -1224,6 +1226,8 @@ fn c10<S: Lc>(ctx: &mut Ctx, id: &str, rng: &mut Rng, spec: &Spec) {
     if !out.accepted() {
         ctx.rep.expect_fail(id, &format!("{}/honest-rejected", S::NAME), "honest proof not accepted", replay::<S>(id, ctx.seed, spec, &describe(run)));
     }
+    // the two column tests are separate relations of the published check
+    merged_equations_forgery::<S>(ctx, id, rng, spec, run);
     // statement components
     let k = range(rng, 0, np - 1);
     {
@@ -1590,4 +1594,59 @@ fn wrong_point_length_forgery<S: Lc>(ctx: &mut Ctx, id: &str, rng: &mut Rng, spe
         ctx.rep.count(&format!("{}/wrong-point-length", S::NAME));
         ctx.rep.case(&format!("{} wrong point length {} -> {:?}", describe(run), pt.len(), out), Some(format!("{}/wrong-point-length/{:?}/{}/{}", S::NAME, spec.sizes, spec.wf, longer)));
     }
+}
+
+/// The two per-position tests `<r, col_q> = E(v_wf)[q]` and `<b, col_q> = E(v)[q]` must hold SEPARATELY.  With
+/// `v' = v + d` and `v_wf' = v_wf - d` (honest columns and paths at the positions of the new transcript) only their
+/// sum still holds, by linearity of the code, and the claimed value `<v', a>` is false.
+fn merged_equations_forgery<S: Lc>(ctx: &mut Ctx, id: &str, rng: &mut Rng, spec: &Spec, run: &Run<S>) {
+    let cid = format!("{}/merged-equations-forgery", id);
+    let c = &run.comms[0];
+    let st = &run.states[0];
+    let p0 = &run.proof[0];
+    let (n, m) = (c.metadata.n_rows, c.metadata.n_cols);
+    let wfv = match (&p0.well_formedness, run.pp.check_well_formedness()) {
+        (Some(w), true) => w.clone(),
+        _ => return,
+    };
+    let (a, _b) = match tensor::<S>(&run.point, m, n) {
+        Ok(x) => x,
+        Err(_) => return,
+    };
+    let delta: Vec<Fr> = (0..m).map(|_| rand_nonzero(rng)).collect();
+    let v2: Vec<Fr> = p0.opening.v.iter().zip(&delta).map(|(x, d)| *x + *d).collect();
+    let wf2: Vec<Fr> = wfv.iter().zip(&delta).map(|(x, d)| *x - *d).collect();
+    if v2.len() != m || wf2.len() != m {
+        return;
+    }
+    let value2 = inner(&v2, &a);
+    if value2 == run.values[0] {
+        return;
+    }
+    let (_r, idx, _) = match transcript::<S>(&run.pp, c, &run.point, &v2, &Some(wf2.clone()), &run.pre) {
+        Some(x) => x,
+        None => return,
+    };
+    let tree = tree_of(&st.leaves);
+    let mut cols = vec![];
+    let mut paths = vec![];
+    for q in &idx {
+        if *q >= c.metadata.n_ext_cols {
+            return;
+        }
+        cols.push((0..n).map(|i| st.ext_mat.entries[i][*q]).collect::<Vec<Fr>>());
+        match tree.generate_proof(*q) {
+            Ok(p) => paths.push(p),
+            Err(_) => return,
+        }
+    }
+    let proof = vec![MProof { opening: MProofSingle { paths, v: v2, columns: cols }, well_formedness: Some(wf2) }];
+    let out = decide::<S>(ctx, &cid, &run.pp, &run.comms[..1], &run.point, &[value2], &proof, &run.pre);
+    if out.accepted() {
+        ctx.rep.expect_fail(&cid, &format!("lincode/false-value-accepted/{}/merged-equations", S::NAME),
+            "a false value verified: v and the well-formedness vector were moved in opposite directions, so only the SUM of the two column tests holds",
+            replay::<S>(&cid, ctx.seed, spec, &describe(run)));
+    }
+    ctx.rep.count(&format!("{}/merged-equations-forgery", S::NAME));
+    ctx.rep.case(&format!("{} merged-equations forgery -> {:?}", describe(run), out), Some(format!("{}/merged-eq/{:?}", S::NAME, spec.sizes)));
 }
